@@ -14,16 +14,16 @@ Section Fourier.
 
   (* ---- fouriertransform.py ---- *)
   Definition ft (x : list cx) (delta : T) : list cx :=
-    cscale_l O delta (fftshift (dft O (fftshift x))).
+    cscale_l O delta (fftshift (dft O (ifftshift x))).
   (* "* data.shape[-1] * delta_f" : two successive scalings *)
   Definition ift (X : list cx) (delta_f : T) : list cx :=
-    cscale_l O delta_f (cscale_l O (nlen X) (ifftshift (idft O (ifftshift X)))).
+    cscale_l O delta_f (cscale_l O (nlen X) (fftshift (idft O (ifftshift X)))).
   Definition ft2 (m : list (list cx)) (delta : T) : list (list cx) :=
-    cscale_m O (nsqr O delta) (fftshift2 (dft2 O (fftshift2 m))).
+    cscale_m O (nsqr O delta) (fftshift2 (dft2 O (ifftshift2 m))).
   (* N = data.shape[-1] *)
   Definition ift2 (m : list (list cx)) (delta_f : T) : list (list cx) :=
     let N := nofZ O (Z.of_nat (ncols m)) in
-    cscale_m O (nsqr O (nmul O N delta_f)) (ifftshift2 (idft2 O (ifftshift2 m))).
+    cscale_m O (nsqr O (nmul O N delta_f)) (fftshift2 (idft2 O (ifftshift2 m))).
   (* leading batch axes: every function maps over them *)
   Definition ft_batch (xs : list (list cx)) (delta : T) := map (fun x => ft x delta) xs.
   Definition ift_batch (xs : list (list cx)) (delta_f : T) := map (fun x => ift x delta_f) xs.
